@@ -2,7 +2,7 @@
 
 ENTRY = {'coq_dir': 'C13',
  'harness': 'c13',
- 'cases': {'quick': 8000, 'thorough': 120000},
+ 'cases': {'quick': 20000, 'thorough': 120000},
  'consts': ['REQUEST_TIMEOUT_SECS'],
  'nontrivial_min_trace': 40,
  'rule': 'seeded random histories (3-50 stimuli quick, 5-120 thorough) over <=4 peers; 45% dialogue-shaped (the generator tracks a rough estimate of '
